@@ -130,6 +130,11 @@ def inline_body(F, body, depth=3, _stack=None, keep=(), only=None):
                 cb = F.bodies.get(r[1]["closure"])
                 if cb is not None and not cb.is_coroutine and r[1]["closure"] not in origin_stack and len(cb.blocks) <= MAX_BLOCKS:
                     callee, mode = cb, "closure"
+        if callee is None and t["k"] == "call" and t.get("target") is not None and strip_generics(t.get("callee", "")) in STD_SUMMARIES and t.get("dest") is not None:
+            if _summarise_std(raw, bi, t):
+                changed = True
+                work.extend(range(len(raw["blocks"]) - 3, len(raw["blocks"])))
+                continue
         async_info = None
         pending_subst = None
         if callee is None and t["k"] == "call" and strip_generics(t.get("callee", "")) == "core::future::future::Future::poll" and t.get("target") is not None:
@@ -216,6 +221,59 @@ def inline_body(F, body, depth=3, _stack=None, keep=(), only=None):
     nb.unit = getattr(body, "unit", None)
     nb.inlined = True
     return nb
+
+
+# Option / Result combinators that take a predicate closure, written out as the match they stand for, so that the closure body becomes
+# visible to path rules: (variant that calls the closure, value on the other variant: bool constant or "default" = the 2nd argument)
+STD_SUMMARIES = {
+    "core::option::Option::is_some_and": ("core::option::Option", "Some", False),
+    "core::option::Option::is_none_or": ("core::option::Option", "Some", True),
+    "core::result::Result::is_ok_and": ("core::result::Result", "Ok", False),
+    "core::result::Result::is_err_and": ("core::result::Result", "Err", False),
+    "core::option::Option::map_or": ("core::option::Option", "Some", "default"),
+}
+_VARIANTS = {"core::option::Option": [{"name": "None", "idx": 0, "discr": 0}, {"name": "Some", "idx": 1, "discr": 1}],
+             "core::result::Result": [{"name": "Ok", "idx": 0, "discr": 0}, {"name": "Err", "idx": 1, "discr": 1}]}
+
+
+def _summarise_std(raw, bi, t):
+    adt, hit, other = STD_SUMMARIES[strip_generics(t["callee"])]
+    args = t.get("args", [])
+    is_map_or = other == "default"
+    clo = args[2] if is_map_or else (args[1] if len(args) > 1 else None)
+    if clo is None or clo.get("k") not in ("copy", "move") or args[0].get("k") not in ("copy", "move") or args[0]["pl"]["p"]:
+        return False
+    span = t.get("span", "")
+    blocks, locs = raw["blocks"], raw["locals"]
+    blk = blocks[bi]
+    subj = args[0]["pl"]["l"]
+    d = len(locs)
+    locs.append({"id": d, "ty": "isize", "synthetic": True})
+    pay = len(locs)
+    locs.append({"id": pay, "ty": "", "synthetic": True})
+    tup = len(locs)
+    locs.append({"id": tup, "ty": "", "synthetic": True})
+    vs = _VARIANTS[adt]
+    hit_v = [v for v in vs if v["name"] == hit][0]
+    b_hit, b_other = len(blocks), len(blocks) + 1
+    inl = blk.get("inl_stack", [])
+    org = blk.get("origin", raw["path"])
+    # closure arm: payload -> FnOnce::call_once(closure, (payload,)) -> dest
+    blocks.append({"id": b_hit, "cleanup": False, "origin": org, "inl_stack": inl, "stmts": [
+        {"k": "assign", "pl": {"l": pay, "p": []}, "rv": {"k": "use", "op": {"k": "move", "pl": {"l": subj, "p": [{"v": hit_v["idx"], "vn": hit}, 0]}}}, "span": span},
+        {"k": "assign", "pl": {"l": tup, "p": []}, "rv": {"k": "agg", "agg": "tuple", "ops": [{"k": "move", "pl": {"l": pay, "p": []}}]}, "span": span}],
+        "term": {"k": "call", "callee": "core::ops::function::FnOnce::call_once", "callee_full": "core::ops::function::FnOnce::call_once", "args": [clo, {"k": "move", "pl": {"l": tup, "p": []}}],
+                 "arg_tys": [], "dest": t["dest"], "target": t["target"], "unwind": None, "span": span, "synthetic": True}})
+    if is_map_or:
+        orv = {"k": "use", "op": args[1]}
+    else:
+        orv = {"k": "use", "op": {"k": "const", "ty": "bool", "bool": bool(other)}}
+    blocks.append({"id": b_other, "cleanup": False, "origin": org, "inl_stack": inl, "stmts": [{"k": "assign", "pl": t["dest"], "rv": orv, "span": span}],
+                   "term": {"k": "goto", "target": t["target"], "span": span}})
+    blk["stmts"] = blk["stmts"] + [{"k": "assign", "pl": {"l": d, "p": []}, "rv": {"k": "discr", "pl": {"l": subj, "p": []}, "adt": adt, "ty": adt, "variants": vs}, "span": span}]
+    blk["term"] = {"k": "switch", "discr": {"k": "move", "pl": {"l": d, "p": []}}, "discr_ty": "isize", "targets": [[hit_v["discr"], b_hit]], "otherwise": b_other, "span": span,
+                   "std_summary": strip_generics(t["callee"])}
+    return True
 
 
 def _await_parts(tb, t, callee_path):
@@ -422,6 +480,7 @@ def thread_jumps(raw, max_chain=48, budget=160):
                         back.append(q)
                         if len(preds.get(q, [])) >= 2 and blocks[q].get("jt_clone") is None:
                             cands.append(q)
+        flag_of = {}
         # flag merges anywhere in the body (`matches!(..)`, `a && b`, `let ok = if .. { true } else { false }`): a switch block with several
         # predecessors that contains no real work of its own and tests a local which its predecessors set to constants
         for m in range(len(blocks)):
@@ -437,13 +496,17 @@ def thread_jumps(raw, max_chain=48, budget=160):
             dl = mb["term"]["discr"].get("pl", {}).get("l") if mb["term"]["discr"].get("k") in ("copy", "move") else None
             if dl is None:
                 continue
+            for s_ in mb["stmts"]:        # `_t = copy flag; switch _t`
+                if s_["k"] == "assign" and s_["pl"]["l"] == dl and not s_["pl"]["p"] and s_["rv"]["k"] == "use" and s_["rv"]["op"].get("k") in ("copy", "move") and not s_["rv"]["op"]["pl"]["p"]:
+                    dl = s_["rv"]["op"]["pl"]["l"]
             setters = 0
             for q in preds[m]:
                 for s_ in blocks[q]["stmts"]:
                     if s_["k"] == "assign" and s_["pl"]["l"] == dl and not s_["pl"]["p"] and s_["rv"]["k"] == "use" and s_["rv"]["op"].get("k") == "const":
                         setters += 1
-            if setters >= 2:
+            if setters >= 1:
                 cands.append(m)
+                flag_of[m] = dl
         # blocks of inlined code that build a Result / Option / Poll literal themselves (`Err(e)?`, `return Ready(..)`): foldable in place
         lits = []
         for m in range(len(blocks)):
@@ -598,7 +661,30 @@ def thread_jumps(raw, max_chain=48, budget=160):
                 chain, folds, final, e2 = r1
                 budget -= 1
                 progress = True
-                pb["term"]["target"] = emit(chain, folds, final, e2, False)
+                first_clone = emit(chain, folds, final, e2, False)
+                pb["term"]["target"] = first_clone
+                fl_ = flag_of.get(m)
+                if fl_ is not None and isinstance(first_clone, int) and first_clone >= 0 and blocks[first_clone].get("jt_clone") is not None:
+                    # the constant this predecessor stored in the flag is only ever read by its private copy of the test: give it a local
+                    # of its own, so that the flag keeps a single definition on the remaining (computed) path
+                    nl = len(raw["locals"])
+                    nloc = {k__: v__ for k__, v__ in raw["locals"][fl_].items() if k__ != "debug"}
+                    nloc.update(id=nl, synthetic=True)
+                    raw["locals"].append(nloc)
+                    for s_ in pb["stmts"]:
+                        if s_["k"] == "assign" and s_["pl"]["l"] == fl_ and not s_["pl"]["p"]:
+                            s_["pl"] = {"l": nl, "p": []}
+                    for k_ in range(first_clone, first_clone + len(chain)):
+                        for s_ in blocks[k_]["stmts"]:
+                            if s_["k"] == "assign" and s_["rv"]["k"] == "use" and s_["rv"]["op"].get("k") in ("copy", "move") and s_["rv"]["op"]["pl"]["l"] == fl_ and not s_["rv"]["op"]["pl"]["p"]:
+                                s_["rv"]["op"]["pl"] = {"l": nl, "p": []}
+                                # the temporary the copy is tested through is private to this copy of the test as well
+                                if not s_["pl"]["p"] and len(chain) == 1:
+                                    tl = len(raw["locals"])
+                                    tloc = {k__: v__ for k__, v__ in raw["locals"][s_["pl"]["l"]].items() if k__ != "debug"}
+                                    tloc.update(id=tl, synthetic=True)
+                                    raw["locals"].append(tloc)
+                                    s_["pl"] = {"l": tl, "p": []}
         if not progress:
             break
     _prune_and_substitute(raw)
